@@ -360,9 +360,19 @@ def pick_case(g: Gen, rng, stream: str) -> tuple[str, bytes]:
 TAG_PREFIX_OK = __import__('re').compile(rb' *(\S+)')
 
 
-def monitor(ctx, where: str, state: str, data: bytes, o: D.Outcome, known_kind: str | None = None) -> bool:
-    """The property statement on one exchange; True when it holds."""
+def enc_history(history) -> list:
+    return [[st, d.hex(), d[:200].decode('latin-1')] for st, d in history]
+
+
+def monitor(ctx, where: str, state: str, data: bytes, o: D.Outcome, known_kind: str | None = None,
+            history=None) -> bool:
+    """The property statement on one exchange; True when it holds.  `history`
+    = everything sent in this environment so far, in order, as (state of the
+    connection, bytes) — the replay of a failure that needs a sequence."""
     replay = {'kind': where, 'state': state, 'data': data.hex(), 'data_text': data[:300].decode('latin-1')}
+    if history:
+        replay['kind'] = 'sequence'
+        replay['sequence'] = enc_history(history[-400:])
     obs_base = {'exc': o.exc, 'site': o.site}
     ok = True
 
@@ -375,6 +385,10 @@ def monitor(ctx, where: str, state: str, data: bytes, o: D.Outcome, known_kind: 
 
     if o.hang:
         fail('no_hang', 'the server does not come back within the step budget', 'hang')
+        return ok
+    if o.stalled:
+        fail('answered', 'complete command line, but no tagged completion, continuation request or BYE within '
+             'the step budget: the connection task waits for something that is not the client', 'stalled')
         return ok
     if o.other_ok is False:
         fail('others_served', "a second connection's NOOP is not answered", 'others_blocked')
@@ -423,12 +437,17 @@ async def run_server_stream(ctx, cases: list[tuple[str, str, bytes]], terms, kee
         if too_many_hangs():
             break
         conn = await pool.get(state)
+        pool.history.append((state, data))
         o = await D.feed(conn, data, pool.other, probe_other=(i % 7 == 0))
+        if o.other_ok is not None:
+            pool.history.append(('other', b'prN NOOP\r\nprN SUBSCRIBE INBOX\r\n'))
         hist[(stream, state, (o.tagged[1].decode() if o.tagged else 'closed' if o.closed else 'pending'))] += 1
         ctx.count(('server', state, data), nontrivial=bool(o.tagged and o.tagged[1] != b'BAD') or o.conts > 0)
-        if o.hang:
+        if o.hang or o.stalled:
             _hangs[0] += 1
-        good = monitor(ctx, 'line', state, data, o)
+        good = monitor(ctx, 'line', state, data, o, history=list(pool.history))
+        if o.stalled or o.other_ok is False:
+            pool.dead = True        # go on with a fresh environment
         if good and o.units and not o.truncated and not o.hang:
             terms.append(enc_server_case(state, o.units, o))
             keep.append((state, data, o))
@@ -456,6 +475,48 @@ async def bad_limit_monitor(ctx) -> None:
                             {'kind': 'bad_limit', 'state': state, 'k': k}, {'kind': 'bad_limit'})
             if o.closed:
                 break
+
+
+# a command answered NO because a mailbox lookup fails, then one that changes
+# the mailbox set, on the same and on a second connection of the account
+SEQ_FAILING = [(b'auth', b'q1 STATUS nope (MESSAGES)\r\n'), (b'auth', b'q1 SELECT nope\r\n'),
+               (b'auth', b'q1 EXAMINE nope\r\n'), (b'auth', b'q1 CREATE Sent\r\n'),
+               (b'auth', b'q1 DELETE nope\r\n'), (b'auth', b'q1 RENAME nope other\r\n'),
+               (b'auth', b'q1 APPEND nope {1+}\r\nx\r\n'), (b'sel', b'q1 COPY 1 nope\r\n'),
+               (b'sel', b'q1 MOVE 1 nope\r\n'), (b'auth', b'q1 SUBSCRIBE nope\r\n'),
+               (b'auth', b'q1 LIST "" nope\r\n'), (b'sel', b'q1 FETCH 99 FLAGS\r\n')]
+SEQ_MUTATING = [b'q2 CREATE fresh\r\n', b'q2 DELETE Sent\r\n', b'q2 RENAME Sent Sent2\r\n',
+                b'q2 SUBSCRIBE INBOX\r\n', b'q2 UNSUBSCRIBE INBOX\r\n', b'q2 APPEND INBOX {1+}\r\nx\r\n',
+                b'q2 STATUS INBOX (MESSAGES)\r\n']
+
+
+async def sequence_monitor(ctx, quick: bool) -> None:
+    from ..pymap_env import DictEnv
+    k = 0
+    for fstate, failing in SEQ_FAILING:
+        muts = SEQ_MUTATING if not quick else [SEQ_MUTATING[k % len(SEQ_MUTATING)],
+                                               SEQ_MUTATING[(k + 3) % len(SEQ_MUTATING)]]
+        k += 1
+        for mut in muts:
+            if too_many_hangs():
+                return
+            env = await DictEnv().start()
+            state = fstate.decode()
+            a = D.keep(await env.login())
+            b = D.keep(await env.login())
+            history = [(state, b'<login>')]
+            if state == 'sel':
+                await a.send(b's SELECT INBOX\r\n')
+                history.append((state, b's SELECT INBOX\r\n'))
+            for conn, cstate, data in ((a, state, failing), (a, state, mut), (b, 'other', b'q3 CREATE fromB\r\n'),
+                                       (b, 'other', b'q4 LIST "" *\r\n')):
+                history.append((cstate, data))
+                o = await D.feed(conn, data)
+                ctx.count(('sequence', failing, mut, data))
+                if o.hang or o.stalled:
+                    _hangs[0] += 1
+                if not monitor(ctx, 'sequence', cstate, data, o, history=list(history)):
+                    break
 
 
 def section_server(ctx) -> None:
@@ -487,6 +548,7 @@ def section_server(ctx) -> None:
     t0 = time.time()
     D.run_all(run_server_stream(ctx, cases, terms, keep, hist))
     D.run_all(bad_limit_monitor(ctx), timeout=300)
+    D.run_all(sequence_monitor(ctx, ctx.quick), timeout=600)
     ctx.extra['server_outcomes'] = {'/'.join(k): v for k, v in sorted(hist.items())}
     ctx.extra['server_wall_s'] = round(time.time() - t0, 1)
     if keep:
@@ -634,9 +696,10 @@ async def run_sieve(ctx, lines: list[bytes], hist) -> None:
             if end is None:
                 continue
             before = len(conn.all_out)
+            stalled = False
             try:
                 with D.Watch():
-                    out = await conn.send(data[:end])
+                    out, stalled = await D.send_step(conn, data[:end])
                 hang = False
             except D.Hang:
                 out, hang = b'', True
@@ -650,6 +713,11 @@ async def run_sieve(ctx, lines: list[bytes], hist) -> None:
             replay = {'kind': 'sieve', 'authed': authed, 'data': data.hex()}
             if hang or isinstance(conn.exc, D.Hang):
                 ctx.failure('no_hang', f'ManageSieve: no return within the step budget on {data[:100]!r}', replay, {'kind': 'hang'})
+            elif stalled:
+                ctx.failure('answered', f'ManageSieve: complete line {data[:100]!r}, no answer within the step budget',
+                            replay, {'kind': 'stalled'})
+                conn = None
+                continue
             elif exc:
                 ctx.failure('no_internal_error', f'ManageSieve: {exc} escaped on {data[:100]!r}', replay,
                             {'kind': 'sieve_escape', 'exc': exc})
@@ -757,7 +825,24 @@ def replay(ctx, obj) -> int:
         o = await D.feed(conn, data)
         print(state, data)
         print(o.as_dict())
-    if 'data' in obj:
+    async def go_sequence():
+        env = await DictEnv().start()
+        conns = {}
+        for st, hexdata, _text in obj['sequence']:
+            data = bytes.fromhex(hexdata)
+            if data in (b'<connect>', b'<login>'):
+                conns[st] = await (env.connect() if st == 'na' else env.login())
+                continue
+            if st not in conns:
+                conns[st] = await (env.connect() if st == 'na' else env.login())
+            for unit in ([data] if st != 'other' else [ln + b'\r\n' for ln in data.split(b'\r\n') if ln]):
+                o = await D.feed(conns[st], unit)
+                print(st, unit[:120], '->', 'STALLED' if o.stalled else o.out[-120:])
+                if o.stalled:
+                    return
+    if obj.get('sequence'):
+        run(go_sequence())
+    elif 'data' in obj:
         run(go())
     else:
         print(obj)
